@@ -24,7 +24,6 @@ from pydicom.filebase import DicomBytesIO
 from pydicom.filereader import read_dataset
 from pydicom.filewriter import write_dataset, write_file_meta_info
 from pydicom.multival import MultiValue
-from pydicom.sequence import Sequence
 from pydicom.tag import Tag
 
 from .common import rng_for
